@@ -507,8 +507,17 @@ func (n *NSQD) GetTopic(topicName string) *Topic {
 	}
 	t = NewTopic(topicName, n, deleteCallback)
 	n.topicMap[topicName] = t
+	exiting := atomic.LoadInt32(&n.isExiting) == 1
 
 	n.Unlock()
+
+	if exiting {
+		// Exit has closed (or is about to close) the topics it found and nothing
+		// would flush this one: hand out a closed topic, so that a publish to it
+		// fails instead of being acknowledged and lost
+		t.Close()
+		return t
+	}
 
 	n.logf(LOG_INFO, "TOPIC(%s): created", t.name)
 	// topic is created but messagePump not yet started
